@@ -4,7 +4,7 @@
 # (c) makes its demonstration fail, and (d) the demonstration passes without it. Then stores it under /verif/seeded/<seed-name>/.
 set -u
 name=$1; prop=$2; wt=$3; dest=$4; pkg=$5; run=$6
-export GOFLAGS=-mod=mod GOPROXY=off
+export GOFLAGS="-mod=mod ${VERIF_TAGS:+-tags=$VERIF_TAGS}" GOPROXY=off
 unset GOTOOLCHAIN
 cd "$wt" || exit 2
 demo=$(ls _mut/demo*_test.go _mut/demo_test.go 2>/dev/null | head -1)
